@@ -25,6 +25,32 @@ def run(facts, rep, ctx):
     if ser is None or rd is None or not ser.pub or not rd.pub:
         rep.inconc(R1, "anchors serialize/from_bytes missing")
         return
+    R5 = rep.rule("R01.5", "both endiannesses: every integer written by serialize and read by from_bytes uses the archive's / caller's endianness", floor=12)
+    import c02
+    c02.endian_rule(facts, rep, R5, ser)
+    nrd = 0
+    for bb, t in rd.calls():
+        nm = callee_names(t)[1] or callee_names(t)[0] or ""
+        sh = nm.rsplit("::", 1)[-1]
+        if sh in ("read_u32", "read_u16") and "EndianAwareReader" in nm:
+            e = strip_refs(rd.term_of_operand(t["args"][-1]))
+            if e[0] == "param" and rd.local_ty(e[1]).endswith("Endian"):
+                nrd += 1
+                rep.ok(R5, {"read": sh, "endian": "caller's", "line": t["line"]})
+            else:
+                rep.violation(R5, rd.name, "endian-arg:%s" % fmt(norm(e))[:30], "from_bytes reads a %s with byte order %s instead of the caller's" % (sh[5:], fmt(e)[:40]), "%s:%s" % (rd.file, t["line"]))
+        elif sh in ("from_le_bytes", "from_be_bytes", "from_ne_bytes"):
+            rep.violation(R5, rd.name, "raw-bytes:" + sh, "from_bytes converts with %s: fixed byte order" % sh, "%s:%s" % (rd.file, t["line"]))
+    # the archive built by the parser carries the caller's endianness
+    ok_new = False
+    for bb, t in rd.calls():
+        if (callee_names(t)[1] or "").endswith("BinArchive::new"):
+            e = strip_refs(rd.term_of_operand(t["args"][0]))
+            ok_new = e[0] == "param" and rd.local_ty(e[1]).endswith("Endian")
+    if ok_new:
+        rep.ok(R5, {"archive": "constructed with the caller's endianness"})
+    else:
+        rep.violation(R5, rd.name, "archive-endian", "from_bytes does not construct the archive with the caller's endianness", "%s:%s" % (rd.file, rd.line))
     w = writer_model(facts, rep, R1, ser)
     r = reader_model(facts, rep, R2, rd)
     if w is None or r is None:
@@ -71,7 +97,11 @@ def run(facts, rep, ctx):
         # from the byte sections and the label table is decided here
         ptr_only = (not unknown and c == 0 and set(missing) <= {ptr_sec} and
                     all(k in (("selffield", "pointers"), ("selffield", "text"), ("selffield", "cstrings"), w.get("text_vec_root")) or (k[0] == "local") for k in extra))
-        if ok:
+        if w.get("incomplete_sections"):
+            root, (bb, sh, line) = w["incomplete_sections"][0]
+            rep.violation(R1, ser.name, "section-incomplete:" + str(nv.local_name(root[1])),
+                          "the text origin uses len(%s) but that section still grows afterwards (%s at line %s): string pointers are offset by the shorter length" % (fmt(root), sh, line), where)
+        elif ok:
             rep.ok(R1, {"origin": fmt_affine(origin)})
         elif ptr_only and missing:
             rep.inconc(R1, "the pointer-table size in the text origin is expressed as %s rather than through the table itself; not decided" % {fmt(k): v for k, v in extra.items()})
@@ -262,6 +292,16 @@ def writer_model(facts, rep, R1, ser):
         for bb, sh, args, t in mutations_of(nv, m["ptr_section"][1]):
             if sh in ("push", "extend", "insert", "append") and bb in reach:
                 m["ptr_incomplete_at_origin"] = True
+    # every other section whose length enters the origin must be complete when the origin is taken
+    m["incomplete_sections"] = []
+    if "origin_bb" in m:
+        reach = nv.reachable_blocks(m["origin_bb"])
+        for kind, root in m["sections_before_text"]:
+            if root == m["ptr_section"] or not root or root[0] != "local":
+                continue
+            late = [(bb, sh, t["line"]) for bb, sh, args, t in mutations_of(nv, root[1]) if sh in ("push", "extend", "insert", "append", "resize", "extend_from_slice") and bb in reach and bb != m["origin_bb"]]
+            if late:
+                m["incomplete_sections"].append((root, late[0]))
     # label pushes: order of pushes to the label section inside the label loop
     order = []
     lab_sec = u32secs[1][1] if len(u32secs) > 1 else None
